@@ -34,7 +34,7 @@ def _case(draw):
         pos = draw(st.integers(0, len(rf['rules'])))
         rf = dict(rf, rules=rf['rules'][:pos] + [extra] + rf['rules'][pos:])
     n = len(rf['rules'])
-    return {'kind': 'rules', 'rf': rf, 'txns': draw(st.lists(R.txn_for(rf), min_size=2, max_size=4)), 'rows': draw(lang.rows_case),
+    return {'kind': 'rules', 'rf': rf, 'txns': draw(R.txn_list(rf)), 'rows': draw(lang.rows_opt),
             'perm': draw(st.permutations(list(range(n)))), 'mode': draw(st.sampled_from(['first_match', 'most_specific']))}
 
 
